@@ -100,6 +100,28 @@ def make_collections(prog: Program, frames: dict, present: dict | None = None):
                 layer = {(f"graphsrc-{s.name}", i): p for i, p in enumerate(parts)}
                 divs = s.divisions or (None,) * (len(parts) + 1)
                 out[s.name] = dx.from_graph(layer, meta, divs, list(layer), f"graphsrc{s.name}")
+        elif s.how in ("parquet", "parquet-arrow"):
+            # one real parquet file per partition under /verif/.work/pq (removed by the driver); the reader's tasks return the tagged
+            # cells, which the interpreter turns into the symbolic cells of the source - sound as long as the reader itself does not
+            # evaluate predicates on the (tag) values: plans with reader-side filters are refused in symexec()
+            import tempfile
+
+            base = os.path.join("/verif/.work", "pq")
+            os.makedirs(base, exist_ok=True)
+            d = tempfile.mkdtemp(prefix=f"{s.name}-", dir=base)
+            cuts = s.cuts or tuple(int(round(i * s.nrows / s.npart)) for i in range(s.npart + 1))
+            if isinstance(pdf.index, pd.RangeIndex):
+                # a default RangeIndex is not stored in the files (the arrow reader numbers the rows of each read unit afresh,
+                # so the labels would depend on how many files one task reads): the source gets a materialised integer index
+                pdf = pdf.set_axis(pd.Index(list(pdf.index), dtype="int64", name=pdf.index.name))
+            for i, (a, b) in enumerate(zip(cuts, cuts[1:])):
+                part = pdf.iloc[a:b]
+                if present is not None and s.name in present:
+                    keep = present[s.name]
+                    part = part[np.array([keep[r] for r in range(a, b)], dtype=bool)]
+                part.to_parquet(os.path.join(d, f"part.{i}.parquet"))
+            kw = {"filesystem": "arrow"} if s.how == "parquet-arrow" else {}
+            out[s.name] = dx.read_parquet(d, calculate_divisions=s.divisions is not None, **kw)
         elif s.how == "array":
             out[s.name] = dx.from_array(pdf.values, chunksize=max(1, -(-s.nrows // s.npart)), columns=list(pdf.columns))
         else:
@@ -171,6 +193,7 @@ def symexec(lowered, env, paths=True, gather=True):
 
     holder = {}
     lowered = lowered.lower_completely()  # what FrameBase.__dask_graph__ does before materialising
+    _refuse_reader_filters(lowered)
 
     def once():
         parts, it = run_graph(lowered, env)
@@ -185,6 +208,23 @@ def symexec(lowered, env, paths=True, gather=True):
 
     res = core.explore(once, mk, base=env.constraints)
     return res, holder.get("it")
+
+
+def _refuse_reader_filters(lowered):
+    """a predicate handed to the parquet reader is evaluated by Arrow on the stored values - for a symbolic source these are tags"""
+    from symdf.core import Unsupported
+
+    try:
+        from dask_expr.io.parquet import ReadParquet
+    except Exception:
+        return
+    for e in lowered.walk():
+        if isinstance(e, ReadParquet) and e.operand("filters"):
+            raise Unsupported("filter pushed into the parquet reader (evaluated by Arrow on stored values; see C18 for the pushed expression)")
+        for sub in getattr(e, "exprs", []) or []:
+            for x in sub.walk():
+                if isinstance(x, ReadParquet) and x.operand("filters"):
+                    raise Unsupported("filter pushed into the parquet reader (evaluated by Arrow on stored values; see C18 for the pushed expression)")
 
 
 def concrete(lowered):
